@@ -19,7 +19,10 @@ def sort_of_desc(desc):
         return Z_INT, opt
     if base == 'bool':
         return Z_BOOL, opt
-    if base in ('bytes', 'str'):
+    if base == 'bytes':
+        from .bytesmodel import B
+        return B, opt
+    if base in ('hbytes', 'hstr', 'str'):
         return Z_STR, opt
     if base == 'seqint':
         return z3.SeqSort(Z_INT), opt
@@ -87,8 +90,8 @@ class HeapMixin:
         base = desc[3:] if opt else desc
         if base.startswith('enum:'):
             v = EnumV(self.class_named(base[5:]), val)
-        elif base in ('bytes', 'str'):
-            v = SymStr(base, val)
+        elif base in ('bytes', 'str', 'hbytes', 'hstr'):
+            v = SymStr({'hbytes': 'bytes', 'hstr': 'str'}.get(base, base), val)
         else:
             v = val
         if opt:
@@ -118,8 +121,12 @@ class HeapMixin:
             if not is_bool_like(v):
                 raise Unsupported('non-bool stored into bool field: %r' % (v,))
             zv = zbool(v)
-        elif base in ('bytes', 'str'):
-            if str_kind(v) != base:
+        elif base == 'bytes':
+            if str_kind(v) != 'bytes':
+                raise Unsupported('wrong string kind stored: %r' % (v,))
+            zv = self.to_abs(v)
+        elif base in ('str', 'hbytes', 'hstr'):
+            if str_kind(v) != {'hbytes': 'bytes', 'hstr': 'str'}.get(base, base):
                 raise Unsupported('wrong string kind stored: %r' % (v,))
             zv = to_zstr(v)
         elif base == 'seqint':
@@ -524,9 +531,7 @@ class HeapMixin:
 
     # ---- strings -----------------------------------------------------------
     def str_len(self, v):
-        if isinstance(v, SymStr):
-            return z3.Length(v.s)
-        return len(v)
+        return self.s_len(v)
 
     def norm_index(self, i, n):
         """Python slice index normalisation -> clamp to [0, n]."""
@@ -537,6 +542,9 @@ class HeapMixin:
     def str_slice(self, base, lo, hi, node):
         if not isinstance(base, SymStr) and (lo is None or isinstance(lo, int)) and (hi is None or isinstance(hi, int)):
             return base[lo:hi]
+        from .bytesmodel import is_abs
+        if is_abs(base):
+            return self.s_slice(base, lo, hi, node)
         s = to_zstr(base)
         n = z3.Length(s)
         a = 0 if lo is None else self.norm_index(self.int_of(lo), n)
@@ -558,9 +566,9 @@ class HeapMixin:
 
     def repeat_str(self, s, n):
         # b"\0" * n : only the length is ever observable
-        r = self.fresh('rep', 'str')
-        self.assume(z3.Length(r) == z3.If(zint(n) < 0, 0, zint(n) * self.str_len(s)))
-        return SymStr(str_kind(s), r)
+        r = self.new_abs('rep', str_kind(s))
+        self.assume(self.s_len(r) == z3.If(zint(n) < 0, 0, zint(n) * self.str_len(s)))
+        return r
 
     # ---- lists -------------------------------------------------------------
     def list_concat(self, a, b):
